@@ -34,10 +34,14 @@ type fakeS3 struct {
 	// putFailStatus (507: the backend is full; 403: the credentials expired; 503: an outage longer than the retries)
 	putBudget     int
 	putFailStatus int
+	// script: "METHOD key" -> the answers to the next requests of that kind, one per request ("200": handled normally;
+	// "404k" NoSuchKey, "404b" NoSuchBucket, "trunc": 200 with a body shorter than announced, any other number: that
+	// status with a fitting error code).  Used by remotestores.go.
+	script map[string][]string
 }
 
 func newFakeS3() *fakeS3 {
-	f := &fakeS3{objects: map[string][]byte{}, failGet: map[string]int{}, putBudget: -1}
+	f := &fakeS3{objects: map[string][]byte{}, failGet: map[string]int{}, putBudget: -1, script: map[string][]string{}}
 	f.srv = httptest.NewServer(http.HandlerFunc(f.serve))
 	return f
 }
@@ -132,6 +136,13 @@ func (f *fakeS3) serve(w http.ResponseWriter, r *http.Request) {
 	}
 	full := bucket + "/" + key
 	f.log = append(f.log, r.Method+" "+key)
+	if sc := f.script[r.Method+" "+key]; len(sc) > 0 {
+		f.script[r.Method+" "+key] = sc[1:]
+		if sc[0] != "200" {
+			f.scripted(w, r, sc[0], key)
+			return
+		}
+	}
 	switch r.Method {
 	case http.MethodGet, http.MethodHead:
 		if st, ok := f.failGet[key]; ok && st != 0 {
@@ -169,6 +180,36 @@ func (f *fakeS3) serve(w http.ResponseWriter, r *http.Request) {
 		w.WriteHeader(204)
 	default:
 		s3Error(w, 405, "MethodNotAllowed", key)
+	}
+}
+
+// scripted answers one request as the script says
+func (f *fakeS3) scripted(w http.ResponseWriter, r *http.Request, o, key string) {
+	io.Copy(io.Discard, r.Body)
+	switch o {
+	case "404k":
+		s3Error(w, 404, "NoSuchKey", key)
+	case "404b":
+		s3Error(w, 404, "NoSuchBucket", key)
+	case "trunc":
+		w.Header().Set("ETag", `"0"`)
+		w.Header().Set("Content-Type", "application/octet-stream")
+		w.Header().Set("Last-Modified", "Wed, 01 Jan 2020 00:00:00 GMT")
+		w.Header().Set("Content-Length", "1000")
+		w.WriteHeader(200)
+		w.Write([]byte("short"))
+		if hj, ok := w.(http.Hijacker); ok {
+			if c, _, err := hj.Hijack(); err == nil {
+				c.Close()
+			}
+		}
+	default:
+		st, _ := strconv.Atoi(o)
+		code := map[int]string{507: "XMinioStorageFull", 403: "AccessDenied", 400: "InvalidRequest", 409: "OperationAborted", 412: "PreconditionFailed"}[st]
+		if code == "" {
+			code = "Unknown"
+		}
+		s3Error(w, st, code, key)
 	}
 }
 
